@@ -1,5 +1,6 @@
 """C16 ops for libhost_child: the proto-plus classes an emitted `types` package really defines.  Runs INSIDE the child."""
 import importlib
+import inspect
 
 
 def exc_name(e):
@@ -53,10 +54,21 @@ def op_client_surface(o):
         return {"raised": exc_name(e), "msg": str(e)[:300]}
     res["all"] = sorted(getattr(M, "__all__", []))
     res["classes"] = {}
+    res["rpc_like"] = {}
     for n in res["all"]:
         cls = getattr(M, n, None)
         if isinstance(cls, type):
             res["classes"][n] = sorted(a for a in dir(cls) if not a.startswith("__") and callable(getattr(cls, a, None)))
+            # attributes with the calling convention of an RPC entry point: (self, request, ..., retry, timeout, metadata)
+            rl = []
+            for a in res["classes"][n]:
+                try:
+                    ps = set(inspect.signature(getattr(cls, a)).parameters)
+                except (TypeError, ValueError):
+                    continue
+                if {"request", "retry", "timeout", "metadata"} <= ps:
+                    rl.append(a)
+            res["rpc_like"][n] = rl
     return res
 
 
